@@ -1,5 +1,5 @@
 // Rule universe U(NS, Σ) for tree automata harnesses: all rules over states 0..NS-1 and the ranked alphabet given by
-// the macro SYM_RANKS (a brace list of ranks <= 2, one per symbol; symbol i has number i).  The solver variables of a
+// the macro SYM_RANKS (a brace list of ranks <= 3, one per symbol; symbol i has number i).  The solver variables of a
 // symbolic automaton are one presence bit per universe rule and one finality bit per state.
 #pragma once
 #include "vs.h"
@@ -15,22 +15,23 @@ enum { NSYM = sizeof(RANK) / sizeof(RANK[0]) };
 constexpr unsigned ipow(unsigned b, unsigned e) { return e == 0 ? 1 : b * ipow(b, e - 1); }
 constexpr unsigned rulesOfRank(unsigned ns, unsigned r) { return ns * ipow(ns, r); }
 // rule index layout: for symbol s (in order), parent p, children tuple t (base-NS number, first child most significant)
-struct Rule { unsigned char sym, rank, parent, child[2]; };
+struct Rule { unsigned char sym, rank, parent, child[3]; };
 template <unsigned N> struct Univ {
   static unsigned count() { unsigned c = 0; for (unsigned s = 0; s < NSYM; ++s) c += rulesOfRank(N, RANK[s]); return c; }
   static Rule rule(unsigned idx) {
-    Rule r; r.child[0] = r.child[1] = 0;
+    Rule r; r.child[0] = r.child[1] = r.child[2] = 0;
     for (unsigned s = 0; s < NSYM; ++s) {
       unsigned k = rulesOfRank(N, RANK[s]);
       if (idx < k) { r.sym = s; r.rank = RANK[s]; unsigned per = ipow(N, RANK[s]); r.parent = idx / per; unsigned t = idx % per;
-        if (r.rank == 1) r.child[0] = t; else if (r.rank == 2) { r.child[0] = t / N; r.child[1] = t % N; } return r; }
+        if (r.rank == 1) r.child[0] = t; else if (r.rank == 2) { r.child[0] = t / N; r.child[1] = t % N; }
+        else if (r.rank == 3) { r.child[0] = t / (N * N); r.child[1] = (t / N) % N; r.child[2] = t % N; } return r; }
       idx -= k;
     }
     r.sym = 255; r.rank = 0; r.parent = 0; return r;
   }
-  static unsigned index(unsigned sym, unsigned parent, unsigned c0, unsigned c1) {
+  static unsigned index(unsigned sym, unsigned parent, unsigned c0, unsigned c1, unsigned c2 = 0) {
     unsigned base = 0; for (unsigned s = 0; s < sym; ++s) base += rulesOfRank(N, RANK[s]);
-    unsigned per = ipow(N, RANK[sym]); unsigned t = RANK[sym] == 0 ? 0 : RANK[sym] == 1 ? c0 : c0 * N + c1;
+    unsigned per = ipow(N, RANK[sym]); unsigned t = RANK[sym] == 0 ? 0 : RANK[sym] == 1 ? c0 : RANK[sym] == 2 ? c0 * N + c1 : (c0 * N + c1) * N + c2;
     return base + parent * per + t;
   }
 };
@@ -42,7 +43,7 @@ template <unsigned N> struct SymAut {
   void draw(unsigned long mask = ~0ul) { nrules = Univ<N>::count(); for (unsigned i = 0; i < nrules; ++i) pres[i] = (i < 64 ? ((mask >> i) & 1) != 0 : mask == ~0ul) ? vs_bit() : false;   /* rules 64.. are candidates only without a mask */ for (unsigned s = 0; s < N; ++s) fin[s] = vs_bit(); }
   // candidate mask of the "triangular" sub-universe: a rule is a candidate iff its parent number is <= every child number
   static unsigned long triangular() { unsigned long m = 0; unsigned n = Univ<N>::count(); for (unsigned i = 0; i < n; ++i) { Rule r = Univ<N>::rule(i); bool ok = true; for (unsigned k = 0; k < r.rank; ++k) ok = ok && r.parent <= r.child[k]; if (ok) m |= 1ul << i; } return m; }
-  bool has(unsigned sym, unsigned parent, unsigned c0 = 0, unsigned c1 = 0) const { return pres[Univ<N>::index(sym, parent, c0, c1)]; }
+  bool has(unsigned sym, unsigned parent, unsigned c0 = 0, unsigned c1 = 0, unsigned c2 = 0) const { return pres[Univ<N>::index(sym, parent, c0, c1, c2)]; }
   template <class Aut> void build(Aut& aut, const unsigned* rename = 0) const {
     for (unsigned i = 0; i < nrules; ++i) if (pres[i]) {
       Rule r = Univ<N>::rule(i); typename Aut::StateTuple t;
@@ -94,6 +95,10 @@ template <unsigned PA, unsigned PB> bool included(const SymAut<PA>& a, const Sym
       } else if (r.rank == 1) {
         for (unsigned S0 = 0; S0 < MS; ++S0) { bool en = a.pres[i] & tab[r.child[0]][S0];
           unsigned S = 0; for (unsigned p = 0; p < PB; ++p) { bool any = false; for (unsigned c = 0; c < PB; ++c) any |= b.has(r.sym, p, c) & ((S0 >> c) & 1); S |= (unsigned)any << p; }
+          for (unsigned X = 0; X < MS; ++X) tab[r.parent][X] |= en & (S == X); }
+      } else if (r.rank == 3) {
+        for (unsigned S0 = 0; S0 < MS; ++S0) for (unsigned S1 = 0; S1 < MS; ++S1) for (unsigned S2 = 0; S2 < MS; ++S2) { bool en = a.pres[i] & tab[r.child[0]][S0] & tab[r.child[1]][S1] & tab[r.child[2]][S2];
+          unsigned S = 0; for (unsigned p = 0; p < PB; ++p) { bool any = false; for (unsigned c = 0; c < PB; ++c) for (unsigned d = 0; d < PB; ++d) for (unsigned e = 0; e < PB; ++e) any |= b.has(r.sym, p, c, d, e) & ((S0 >> c) & 1) & ((S1 >> d) & 1) & ((S2 >> e) & 1); S |= (unsigned)any << p; }
           for (unsigned X = 0; X < MS; ++X) tab[r.parent][X] |= en & (S == X); }
       } else {
         for (unsigned S0 = 0; S0 < MS; ++S0) for (unsigned S1 = 0; S1 < MS; ++S1) { bool en = a.pres[i] & tab[r.child[0]][S0] & tab[r.child[1]][S1];
